@@ -31,8 +31,9 @@ type C04Query struct {
 type C04Case struct {
 	Layout  Layout     `json:"layout"`
 	Clock0  int64      `json:"clock0"`
-	Partial []int      `json:"partial"` // archives written in the partial file
-	Adv     int64      `json:"adv"`     // clock advance between filling and querying
+	Partial []int      `json:"partial"`         // archives written in the partial file
+	Ahead   []int64    `json:"ahead,omitempty"` // per archive: >0: the first point written to it is this many steps ahead of the clock (it becomes the base slot)
+	Adv     int64      `json:"adv"`             // clock advance between filling and querying
 	Queries []C04Query `json:"queries"`
 }
 
@@ -63,6 +64,12 @@ func (c04Sim) Gen(prop, tier string, r *rand.Rand) interface{} {
 	for a := 0; a < n; a++ {
 		if chance(r, 0.5) {
 			c.Partial = append(c.Partial, a)
+		}
+	}
+	if chance(r, 0.1) {
+		// the archive's first point comes from a sender whose clock is ahead
+		for a := 0; a < n; a++ {
+			c.Ahead = append(c.Ahead, pick(r, int64(0), 1, 2, 5))
 		}
 	}
 	switch r.IntN(4) {
@@ -162,6 +169,14 @@ func (c04Sim) Run(e *Env, ci interface{}) {
 	fill := func(db *wt.Whisper, ids []int) bool {
 		for _, id := range ids {
 			a := archs[id]
+			if id < len(c.Ahead) && c.Ahead[id] > 0 && c.Ahead[id] <= 100 {
+				ahead := []wt.Point{{Time: wt.Timestamp(now + c.Ahead[id]*a.S), Value: 7}}
+				if _, pan := callSafely(func() error { return db.UpdatePointsForArchive(ahead, id, wt.Timestamp(now)) }); pan != "" {
+					e.Skip("foreign-panic-in-update")
+					return false
+				}
+				e.Probe("base-slot-holds-a-point-ahead-of-the-clock")
+			}
 			pts := []wt.Point{}
 			for k := int64(0); k < a.N && k < 6; k++ {
 				pts = append(pts, wt.Point{Time: wt.Timestamp(now - k*a.S), Value: wt.Value(float64(id*100) + float64(k))})
